@@ -91,7 +91,9 @@ def serverOf : String → Option (Nat × Key × Nat × Key)
   | _ => none
 
 def skeAttacks : List String := ["ske-otherrandoms", "ske-otherclientrandom", "ske-otherserverrandom", "ske-swaprandoms",
-  "ske-othercert", "ske-nolen", "ske-by-enckey", "ske-by-otherkey", "ske-empty"]
+  "ske-othercert", "ske-nolen", "ske-by-enckey", "ske-by-otherkey", "ske-empty", "ske-replay"]
+
+def cvAttacks : List String := ["cv-replay", "cv-otherdigest", "cv-empty"]
 
 def setAt (l : List Nat) (i v : Nat) : List Nat := l.set i v
 
@@ -103,7 +105,7 @@ def s2cMsgs (f : ServerFlight) : List String :=
 
 /-- the rewrite of a mitm-… attack; `cap` is another session of the same two parties (for replays),
     `suite`/`other` the two ECC suites the client offers -/
-def wireOf (attack : String) (params : List Nat) (other : Nat) (cap : Outcome) (cr : Nat) : Option Wire :=
+def wireOf (attack : String) (params : List Nat) (other : Nat) (cap : Outcome) (cr : Nat) (ckey : Key) : Option Wire :=
   let capSke := cap.sflight.bind (·.ske)
   let capCke := cap.cflight.bind (·.cke)
   let capCv := cap.cflight.bind (·.cv)
@@ -124,6 +126,12 @@ def wireOf (attack : String) (params : List Nat) (other : Nat) (cap : Outcome) (
   | "ske-by-enckey" => forge 2002 fun cr sr e => .ske cr sr e
   | "ske-by-otherkey" => forge 2950 fun cr sr e => .ske cr sr e
   | "ske-empty" => s2c fun x => { x with ske := x.ske.map fun _ => [] }
+  -- the signature of another session in which the server used the same random (the client's differs)
+  | "ske-replay" => forge 2001 fun _ sr e => .ske 1101 sr e
+  -- the malicious client's CertificateVerify (when it presents a certificate at all)
+  | "cv-replay" => c2s fun g => { g with cv := g.cv.map fun k => capCv.getD k }
+  | "cv-otherdigest" => c2s fun g => { g with cv := g.cv.map fun _ => P.sign ckey (.transcript [4242]) }
+  | "cv-empty" => c2s fun g => { g with cv := g.cv.map fun _ => [] }
   | "cke-forge" => c2s fun g => { g with cke := g.cke.map fun _ => P.enc 2002 [7777] }
   | "mitm-ch-version" => ch fun h => { h with vers := 0x0303 }
   | "mitm-ch-version-low" => ch fun h => { h with vers := 0x0100 }
@@ -228,10 +236,11 @@ def authOp (args : List String) : String :=
           { certs := [c0, c1], encDer := c1, signKey := k0, decKey := k1, clientAuth := pol, clientCAs := [caMain], now := 0,
             suites := gmSuites, random := random, ext := 9, certReq := (3, 100) }
         let known := attack == "honest" || attack.startsWith "s-" || skeAttacks.contains attack || attack == "cke-forge" ||
+          cvAttacks.contains attack ||
           attack.startsWith "mitm-"
         if !known then "bad-op" else
         let cap := run P (mkClient 1101 [5105]) (mkServer 2102) {}
-        let wire? : Option Wire := if attack == "honest" || attack.startsWith "s-" then some {} else wireOf attack params other cap 1001
+        let wire? : Option Wire := if attack == "honest" || attack.startsWith "s-" then some {} else wireOf attack params other cap 1001 ckey
         match wire? with
         | none => "bad-op"
         | some w =>
